@@ -1,7 +1,7 @@
 (* C05 — Ring buffer slots: no overwrite before consumption, no unordered access. *)
 From Coq Require Import Arith Lia.
 From DC Require Import Disruptor.Pipeline.
-From DC Require Disruptor.HB.
+From DC Require Disruptor.HB Disruptor.MultiPub.
 
 (* the producer writes sequence q into slot q mod N only when EVERY handler of EVERY stage has returned from
    the sequence q - N previously stored there — for every ring size, topology, batch size and interleaving *)
@@ -57,7 +57,14 @@ Theorem C05_no_overwrite_percursor : forall N H stage last
   HB.reachable N H stage last s -> HB.pp s = HB.PFill q e m -> forall h, h < H -> q <= HB.done s h + N.
 Proof. exact HB.no_overwrite_percursor. Qed.
 
+(* multi producer, true concurrency: while a producer fills the slots of its claim, every consumer is done with the
+   previous occupant q - N of each of them (value level; happens-before for the multi producer is monitored) *)
+Theorem C05_multi_no_overwrite : forall N, 1 <= N -> forall s t lo hi,
+  MultiPub.reachable N s -> MultiPub.tp s t = MultiPub.TClaimed lo hi -> forall q, lo <= q <= hi -> q < MultiPub.gate s + N.
+Proof. exact MultiPub.mp_no_overwrite. Qed.
+
 Print Assumptions C05_no_overwrite_before_consumption.
+Print Assumptions C05_multi_no_overwrite.
 Print Assumptions C05_handler_accesses_race_free.
 Print Assumptions C05_producer_fills_race_free.
 Print Assumptions C05_no_overwrite_percursor.
